@@ -394,13 +394,10 @@ func run(c *harness.Ctx) harness.Result {
 		}
 		// one error line per failed source, naming it
 		if !mustFail || len(failed) > 0 {
+			good := append(append([]string{}, goodS...), goodB...)
 			cnt := map[string]int{}
-			for _, e := range got.errs {
-				for _, f := range failed {
-					if strings.HasPrefix(e, f+": ") {
-						cnt[f]++
-					}
-				}
+			for _, f := range failed {
+				cnt[f] = errorLinesFor(got.errs, f, good)
 			}
 			// when the run aborts early (no sources) the other group's errors may be printed or not
 			if !mustFail {
@@ -410,13 +407,9 @@ func run(c *harness.Ctx) harness.Result {
 						return res
 					}
 				}
-				for _, e := range got.errs {
-					for _, gs := range append(append([]string{}, goodS...), goodB...) {
-						if strings.HasPrefix(e, gs+": ") {
-							res.Verdict, res.Detail = harness.Violated, fmt.Sprintf("%s: error reported for a source that was fetched successfully: %s", desc, e)
-							return res
-						}
-					}
+				if e := errorForGood(got.errs, good, failed); e != "" {
+					res.Verdict, res.Detail = harness.Violated, fmt.Sprintf("%s: error reported for a source that was fetched successfully: %s", desc, e)
+					return res
 				}
 			}
 		}
@@ -583,6 +576,7 @@ func runHTTPErrors(c *harness.Ctx) harness.Result {
 	if timeUnits {
 		ngood = 3 + r.Intn(2) // three units meet in one merge step
 	}
+	var goodURLs []string
 	for i := 0; i < ngood; i++ {
 		p := genProfile(r, 10*(i+1))
 		// the good sources report the time column in their own unit; the report is asked for in
@@ -613,6 +607,7 @@ func runHTTPErrors(c *harness.Ctx) harness.Result {
 			u += "?token=" + strings.Repeat("t", []int{300, 4096, 5000, 70000}[r.Intn(4)])
 		}
 		urls = append(urls, u)
+		goodURLs = append(goodURLs, u)
 	}
 	var shapes []string
 	for i := 0; i < nbad; i++ {
@@ -648,12 +643,7 @@ func runHTTPErrors(c *harness.Ctx) harness.Result {
 	}
 	for i := 0; i < nbad; i++ {
 		u := fmt.Sprintf("http://bad%d.test/debug/pprof/heap", i)
-		n := 0
-		for _, e := range s.UI.Errs {
-			if strings.HasPrefix(e, u+": ") {
-				n++
-			}
-		}
+		n := errorLinesFor(s.UI.Errs, u, goodURLs)
 		if n != 1 {
 			res.Verdict, res.Detail = harness.Violated, fmt.Sprintf("%s: %d error lines for %s, exactly one expected; ui: %v", desc, n, u, trunc(s.UI.Errs))
 			return res
@@ -851,12 +841,7 @@ func runTLS(c *harness.Ctx, free bool) harness.Result {
 	if rr.Err != nil {
 		return harness.Violation("%s: pprof failed although the https+insecure source can be fetched: %v %v", desc, rr.Err, trunc(s.UI.Errs))
 	}
-	nerr := 0
-	for _, e := range s.UI.Errs {
-		if strings.HasPrefix(e, secure+": ") {
-			nerr++
-		}
-	}
+	nerr := errorLinesFor(s.UI.Errs, secure, []string{insecure})
 	out := ""
 	if bf := s.Writer.Files["out"]; bf != nil {
 		out = bf.String()
@@ -913,6 +898,74 @@ func releaseOrder(ev []string, max int) []string {
 		}
 	}
 	return out
+}
+
+// Error lines are recognised by what they are about, not by their wording: a line of the error
+// stream is "about" a source when it mentions the source's address. Lines of a shape that is also
+// printed for a source that was fetched successfully (progress messages such as "Fetching profile
+// over HTTP from <address>") are no error reports. shapesOf returns the lines about addr with the
+// address blanked out.
+func shapesOf(errs []string, addr string) []string {
+	var out []string
+	for _, e := range errs {
+		if strings.Contains(e, addr) {
+			out = append(out, strings.ReplaceAll(e, addr, "<A>"))
+		}
+	}
+	return out
+}
+
+// errorLinesFor counts the lines about addr whose shape is not also printed for one of the
+// successfully fetched sources.
+func errorLinesFor(errs []string, addr string, good []string) int {
+	progress := map[string]bool{}
+	for _, g := range good {
+		for _, t := range shapesOf(errs, g) {
+			progress[t] = true
+		}
+	}
+	n := 0
+	for _, t := range shapesOf(errs, addr) {
+		if !progress[t] {
+			n++
+		}
+	}
+	return n
+}
+
+// errorForGood returns a line about a successfully fetched source that has the shape of a line
+// printed about a failed one, unless every successfully fetched source gets a line of that shape.
+func errorForGood(errs []string, good, failed []string) string {
+	if len(good) < 2 {
+		return ""
+	}
+	count := map[string]int{}
+	for _, g := range good {
+		seen := map[string]bool{}
+		for _, t := range shapesOf(errs, g) {
+			if !seen[t] {
+				seen[t] = true
+				count[t]++
+			}
+		}
+	}
+	bad := map[string]bool{}
+	for _, f := range failed {
+		for _, t := range shapesOf(errs, f) {
+			bad[t] = true
+		}
+	}
+	for _, g := range good {
+		for _, e := range errs {
+			if strings.Contains(e, g) {
+				t := strings.ReplaceAll(e, g, "<A>")
+				if bad[t] && count[t] < len(good) {
+					return e
+				}
+			}
+		}
+	}
+	return ""
 }
 
 func init() {
